@@ -197,6 +197,8 @@ where
     }
 
     fn handle_event(&self, device_event: u16, evset: EventSet) -> VringEpollResult<bool> {
+        #[cfg(feature = "verif-hooks")]
+        vhost::verif::hold("w.woken", device_event as u64);
         if self.exit_event_fd.is_some() && device_event as usize == self.backend.num_queues() {
             return Ok(true);
         }
@@ -206,6 +208,8 @@ where
             let enabled = vring
                 .read_kick()
                 .map_err(VringEpollError::HandleEventReadKick)?;
+            #[cfg(feature = "verif-hooks")]
+            vhost::verif::hold("w.kick_read", device_event as u64);
 
             // If the vring is not enabled, it should not be processed.
             if !enabled {
@@ -213,6 +217,8 @@ where
             }
         }
 
+        #[cfg(feature = "verif-hooks")]
+        vhost::verif::hold("w.dispatch", device_event as u64);
         self.backend
             .handle_event(device_event, evset, &self.vrings, self.thread_id)
             .map_err(VringEpollError::HandleEventBackendHandling)?;
